@@ -16,7 +16,7 @@ Theorem C03_ptr_fields_spec : forall w, word64 w ->
   farSegment w = far_seg w /\
   capabilityIndex w = cap_index w /\
   otherPointerType w = cap_zero w /\
-  (forall tag, word64 tag ->
+  (forall tag, word64 tag -> w mod 8 = 2 \/ tag mod 4 < 2 ->
      landingPadNearPointer w tag =
      (tag / 4294967296) * 4294967296 + 4 * far_off w + 2 * far_two w + tag mod 4).
 Proof. exact ptr_fields_spec. Qed.
